@@ -53,8 +53,12 @@ def ev(node: ast.AST, bind: Binder) -> t.Any:
             return -v
         raise Unknown(norm(node))
     if isinstance(node, ast.BoolOp):
-        vals = [ev(v, bind) for v in node.values]
-        return all(vals) if isinstance(node.op, ast.And) else any(vals)
+        val: t.Any = None  # python's value semantics, short-circuit included
+        for v in node.values:
+            val = ev(v, bind)
+            if bool(val) != isinstance(node.op, ast.And):
+                return val
+        return val
     if isinstance(node, ast.BinOp):
         a, b = ev(node.left, bind), ev(node.right, bind)
         try:
@@ -104,8 +108,41 @@ def ev(node: ast.AST, bind: Binder) -> t.Any:
                 return False
             left = right
         return True
+    if isinstance(node, ast.IfExp):
+        return ev(node.body, bind) if ev(node.test, bind) else ev(node.orelse, bind)
+    if isinstance(node, ast.JoinedStr):
+        out = ""
+        for v in node.values:
+            if isinstance(v, ast.Constant):
+                out += str(v.value)
+            elif isinstance(v, ast.FormattedValue) and v.format_spec is None and v.conversion in (-1, None):
+                x = ev(v.value, bind)
+                if not isinstance(x, str):
+                    raise Unknown(norm(node))
+                out += x
+            else:
+                raise Unknown(norm(node))
+        return out
     if isinstance(node, ast.Call):
         d = dotted(node.func)
+        if d in ("bool", "str") and len(node.args) == 1 and not node.keywords:
+            v = ev(node.args[0], bind)
+            if d == "bool":
+                return bool(v)
+            if isinstance(v, str):
+                return v
+            raise Unknown(norm(node))
+        if isinstance(node.func, ast.Attribute) and node.func.attr == "join" and len(node.args) == 1 and not node.keywords:
+            sep = ev(node.func.value, bind)
+            parts = ev(node.args[0], bind)  # a list / tuple display, or a local holding one
+            if isinstance(sep, str) and isinstance(parts, tuple) and all(isinstance(x, str) for x in parts):
+                return sep.join(parts)
+            raise Unknown(norm(node))
+        if isinstance(node.func, ast.Attribute) and node.func.attr in ("startswith", "endswith", "removeprefix", "removesuffix", "lstrip", "rstrip") and len(node.args) == 1 and not node.keywords:
+            v, a = ev(node.func.value, bind), ev(node.args[0], bind)
+            if isinstance(v, (str, bytes)) and type(a) is type(v):
+                return getattr(v, node.func.attr)(a)
+            raise Unknown(norm(node))
         if d == "range" and not node.keywords and 1 <= len(node.args) <= 3:
             args = [ev(a, bind) for a in node.args]
             if all(isinstance(a, int) for a in args):
@@ -123,7 +160,7 @@ def ev(node: ast.AST, bind: Binder) -> t.Any:
     raise Unknown(norm(node))
 
 
-def admitted(guards: list[tuple[Node, str]], is_var: t.Callable[[ast.AST], bool], domain: t.Iterable[t.Any]) -> tuple[list[t.Any], list[tuple[Node, str]]]:
+def admitted(guards: list[tuple[Node, str]], is_var: t.Callable[[ast.AST], bool], domain: t.Iterable[t.Any], fold: t.Callable[[ast.AST], t.Any] | None = None) -> tuple[list[t.Any], list[tuple[Node, str]]]:
     """values of the variable for which every dominating guard atom that mentions it evaluates to the edge taken.
     Returns (admitted values, the atoms used).  An atom that mentions the variable but cannot be evaluated makes the
     question undecidable -> AnalysisError."""
@@ -132,8 +169,18 @@ def admitted(guards: list[tuple[Node, str]], is_var: t.Callable[[ast.AST], bool]
     for v in domain:
         ok = True
         for n, l in atoms:
+            def bind(x: ast.AST, v: t.Any = v) -> tuple[bool, t.Any]:
+                if is_var(x):
+                    return True, v
+                if fold is not None and isinstance(x, (ast.Name, ast.Attribute)):  # a module-level constant
+                    try:
+                        return True, fold(x)
+                    except Exception:
+                        return False, None
+                return False, None
+
             try:
-                r = bool(ev(n.ast, lambda x, v=v: (True, v) if is_var(x) else (False, None)))
+                r = bool(ev(n.ast, bind))
             except Unknown as e:
                 raise AnalysisError(f"guard atom `{norm(n.ast)}` is outside the evaluable subset ({e})")
             if r != (l == "T"):
@@ -222,7 +269,7 @@ def prove_nonneg(goal: Lin, facts: t.Sequence[Lin], depth: int = 4) -> bool:
 Path = t.List[t.Tuple[Node, t.Optional[str]]]
 
 
-def paths(cfg: CFG, start: Node, stops: t.Iterable[Node], limit: int = 20000) -> list[Path]:
+def paths(cfg: CFG, start: Node, stops: t.Iterable[Node], limit: int = 20000, follow_exc: bool = True) -> list[Path]:
     """all paths from ``start`` that use every CFG edge at most once and end at the first stop node met after at least
     one step (a loop is therefore taken zero times and once).  AnalysisError when more than ``limit`` paths exist."""
     stop_ids = {n.id for n in stops}
@@ -237,7 +284,7 @@ def paths(cfg: CFG, start: Node, stops: t.Iterable[Node], limit: int = 20000) ->
             continue
         for i, (s, l) in enumerate(n.succs):
             e = (n.id, i)
-            if e in used:
+            if e in used or (l == "exc" and not follow_exc):
                 continue
             stack.append((s, p + [(n, l)], used | {e}))
     return out
@@ -264,6 +311,7 @@ class Opaque:
         self.id = f"bytes#{Opaque._n}"
         self.requested = requested
         self.what = what
+        self.res_at: Lin | None = None  # residual chunk length when the bytes were requested
 
 
 class NotArith(Exception):
@@ -299,9 +347,95 @@ class PathResult:
 
 
 class LoopSym:
-    def __init__(self, bufname: str, counter: str, residual: str, under: str, lenreader: str):
-        self.buf, self.counter, self.residual, self.under, self.lenreader = bufname, counter, residual, under, lenreader
+    def __init__(self, bufname: str, counter: "str | ast.AST", residual: str, under: str, lenreader: str):
+        # counter: the expression readinto returns - a local (`read`) or arithmetic over locals (`size - free`)
+        self.counter_expr: ast.AST = ast.Name(id=counter, ctx=ast.Load()) if isinstance(counter, str) else counter
+        self.counter = norm(self.counter_expr)
+        self.buf, self.residual, self.under, self.lenreader = bufname, residual, under, lenreader
+        self.entry_env: dict[str, Lin] = {}  # locals at the first arrival at the loop head (bound once outside the loop, rebound only inside)
         self._uniq = 0
+        self.bufs: set[str] = {bufname}  # the buffer parameter and locals that are views of it (same length, same storage)
+        self.pre_env: dict[str, Lin] = {}  # loop-invariant locals bound once before the loop (`size = len(buf)`)
+        self.pre_facts: list[Lin] = []
+
+    # -- what holds at the loop head on every iteration ---------------------
+    def seed_invariants(self, fn: ast.AST, loop: ast.AST, cfg: CFG, head: Node) -> None:
+        """locals that are bound exactly once in the function, by a statement outside the loop that dominates the loop
+        head, to an arithmetic expression over len(<buffer>), integer constants and other such locals (`size = len(buf)`,
+        `limit = size - 1`), or to the buffer itself / a memoryview of it (`view = memoryview(buf)`).  Their value is the
+        same at every evaluation inside the loop, so the path evaluation may start from it."""
+        stores: dict[str, int] = {}
+        for n in ast.walk(fn):
+            if isinstance(n, ast.Name) and isinstance(n.ctx, (ast.Store, ast.Del)):
+                stores[n.id] = stores.get(n.id, 0) + 1
+            elif isinstance(n, (ast.Global, ast.Nonlocal)):
+                return
+        if stores.get(self.buf):
+            return  # the buffer parameter is rebound: nothing is invariant
+        in_loop = {id(x) for x in ast.walk(loop)}
+        cands = []
+        for n in ast.walk(fn):
+            tg = n.targets[0] if isinstance(n, ast.Assign) and len(n.targets) == 1 else n.target if isinstance(n, ast.AnnAssign) else None
+            if isinstance(tg, ast.Name) and getattr(n, "value", None) is not None and stores.get(tg.id) == 1 and id(n) not in in_loop:
+                nd = cfg.node_of(n)
+                if nd is not None and cfg.node_dominates(nd, head):
+                    cands.append((getattr(n, "lineno", 0), tg.id, n.value))
+        st: dict[str, t.Any] = {"env": self.pre_env, "facts": self.pre_facts, "res": None}
+
+        def inv(e: ast.AST) -> bool:
+            if isinstance(e, ast.Constant):
+                return isinstance(e.value, int) and not isinstance(e.value, bool)
+            if isinstance(e, ast.Name):
+                return e.id in self.pre_env
+            if isinstance(e, ast.UnaryOp) and isinstance(e.op, (ast.USub, ast.UAdd)):
+                return inv(e.operand)
+            if isinstance(e, ast.BinOp) and isinstance(e.op, (ast.Add, ast.Sub, ast.Mult)):
+                return inv(e.left) and inv(e.right)
+            if isinstance(e, ast.Call) and not e.keywords:
+                d = dotted(e.func)
+                if d == "len" and len(e.args) == 1:
+                    return isinstance(e.args[0], ast.Name) and e.args[0].id in self.bufs
+                if d in ("min", "max") and len(e.args) >= 2:
+                    return all(inv(a) for a in e.args)
+            return False
+
+        # first-entry values: a local rebound inside the loop only, bound once outside it before the loop
+        outside: dict[str, list[tuple[ast.AST, ast.AST | None]]] = {}
+        for n in ast.walk(fn):
+            if id(n) in in_loop:
+                continue
+            pairs: list[tuple[ast.AST, ast.AST | None]] = []
+            if isinstance(n, ast.Assign):
+                for tg in n.targets:
+                    if isinstance(tg, ast.Name):
+                        pairs.append((tg, n.value))
+                    elif isinstance(tg, (ast.Tuple, ast.List)):
+                        same = isinstance(n.value, (ast.Tuple, ast.List)) and len(n.value.elts) == len(tg.elts)
+                        pairs += [(e, (n.value.elts[i] if same else None)) for i, e in enumerate(tg.elts) if isinstance(e, ast.Name)]
+            elif isinstance(n, ast.AnnAssign) and isinstance(n.target, ast.Name) and n.value is not None:
+                pairs.append((n.target, n.value))
+            elif isinstance(n, (ast.AugAssign, ast.NamedExpr)) and isinstance(n.target, ast.Name):
+                pairs.append((n.target, None))
+            for tg, v in pairs:
+                nd = cfg.node_of(n)
+                outside.setdefault(tg.id, []).append((n, v if nd is not None and cfg.node_dominates(nd, head) else None))  # type: ignore[attr-defined]
+        for _, name, value in sorted(cands, key=lambda c: c[0]):
+            if isinstance(value, ast.Name) and value.id in self.bufs:
+                self.bufs.add(name)
+            elif isinstance(value, ast.Call) and dotted(value.func) == "memoryview" and len(value.args) == 1 and not value.keywords and isinstance(value.args[0], ast.Name) and value.args[0].id in self.bufs:
+                self.bufs.add(name)
+            elif inv(value):
+                v = self.lin(value, st)
+                if self._known(v):
+                    self.pre_env[name] = v
+        for name, defs in sorted(outside.items(), key=lambda kv: min(getattr(d[0], "lineno", 0) for d in kv[1])):
+            if name in self.pre_env or len(defs) != 1 or defs[0][1] is None:
+                continue
+            value = defs[0][1]
+            if inv(value):
+                v = self.lin(value, st)
+                if self._known(v):
+                    self.entry_env[name] = v
 
     # -- recognisers ---------------------------------------------------
     def is_res(self, n: ast.AST) -> bool:
@@ -327,6 +461,8 @@ class LoopSym:
         env, facts = st["env"], st["facts"]
         if isinstance(e, ast.Constant) and isinstance(e.value, int) and not isinstance(e.value, bool):
             return Lin(e.value)
+        if isinstance(e, ast.NamedExpr):  # bound by _bind_walrus before the enclosing node is evaluated
+            return self.lin(e.target, st)
         if isinstance(e, ast.Name):
             v = env.get(e.id)
             if isinstance(v, Opaque):
@@ -336,6 +472,8 @@ class LoopSym:
             return st["res"]
         if isinstance(e, ast.UnaryOp) and isinstance(e.op, ast.USub):
             return self.lin(e.operand, st).scale(-1)
+        if isinstance(e, ast.UnaryOp) and isinstance(e.op, ast.UAdd):
+            return self.lin(e.operand, st)
         if isinstance(e, ast.BinOp):
             if isinstance(e.op, ast.Add):
                 return self.lin(e.left, st) + self.lin(e.right, st)
@@ -348,27 +486,70 @@ class LoopSym:
                 if not b.t:
                     return a.scale(b.c)
             return self._fresh("opaque")
+        if isinstance(e, ast.IfExp):
+            # `a if a < b else b` and its respellings are min(a, b) / max(a, b); any other conditional: a value
+            # known only to be one of its arms (m with no facts would prove nothing, so give what both arms satisfy)
+            mm = self._minmax_of_ifexp(e, st)
+            if mm is not None:
+                return mm
+            return self._fresh("opaque")
         if isinstance(e, ast.Call):
             d = dotted(e.func)
             if d == "len" and len(e.args) == 1 and not e.keywords:
                 a = e.args[0]
-                if isinstance(a, ast.Name) and a.id == self.buf:
+                if isinstance(a, ast.NamedExpr):
+                    a = a.target
+                if isinstance(a, ast.Name) and a.id in self.bufs:
                     return Lin.atom(f"len({self.buf})")
                 if isinstance(a, ast.Name) and isinstance(env.get(a.id), Opaque):
                     return Lin.atom(f"len({env[a.id].id})")
                 return self._fresh("opaque")
             if d in ("min", "max") and e.args and not e.keywords and not any(isinstance(a, ast.Starred) for a in e.args):
-                args = [self.lin(a, st) for a in e.args]
-                m = Lin.atom(f"{d}(" + ", ".join(sorted(str(a) for a in args)) + ")")
-                for a in args:
-                    facts.append(a - m if d == "min" else m - a)
-                return m
+                args = list(e.args)
+                if len(args) == 1 and isinstance(args[0], (ast.Tuple, ast.List)) and args[0].elts:
+                    args = list(args[0].elts)  # min((a, b)) / min([a, b])
+                elif len(args) == 1:
+                    return self._fresh("opaque")
+                return self._minmax(d, [self.lin(a, st) for a in args], facts)
             if self.under_call(e) or self.is_header_read(e):
                 raise NotArith(norm(e))
             return self._fresh("opaque")
         if isinstance(e, (ast.Subscript, ast.Attribute, ast.JoinedStr, ast.Dict, ast.List, ast.Tuple)) or (isinstance(e, ast.Constant) and not isinstance(e.value, int)):
             raise NotArith(norm(e))
         return self._fresh("opaque")
+
+    def _minmax(self, d: str, args: list[Lin], facts: list[Lin]) -> Lin:
+        uniq: list[Lin] = []
+        for a in args:
+            if a not in uniq:
+                uniq.append(a)
+        if len(uniq) == 1:
+            return uniq[0]
+        m = Lin.atom(f"{d}(" + ", ".join(sorted(str(a) for a in uniq)) + ")")
+        for a in uniq:
+            facts.append(a - m if d == "min" else m - a)
+        return m
+
+    def _minmax_of_ifexp(self, e: ast.IfExp, st: dict[str, t.Any]) -> Lin | None:
+        tst = e.test
+        neg = False
+        while isinstance(tst, ast.UnaryOp) and isinstance(tst.op, ast.Not):
+            tst, neg = tst.operand, not neg
+        if not (isinstance(tst, ast.Compare) and len(tst.ops) == 1 and isinstance(tst.ops[0], (ast.Lt, ast.LtE, ast.Gt, ast.GtE))):
+            return None
+        try:
+            x, y = self.lin(tst.left, st), self.lin(tst.comparators[0], st)
+            a, b = self.lin(e.body, st), self.lin(e.orelse, st)
+        except NotArith:
+            return None
+        less = isinstance(tst.ops[0], (ast.Lt, ast.LtE)) != neg  # the test means x <(=) y
+        if (a, b) == (x, y):
+            d = "min" if less else "max"  # x if x < y else y
+        elif (a, b) == (y, x):
+            d = "max" if less else "min"  # y if x < y else x
+        else:
+            return None
+        return self._minmax(d, [x, y], st["facts"])
 
     def _cmp_facts(self, atom: ast.AST, label: str | None, st: dict[str, t.Any]) -> None:
         if not (isinstance(atom, ast.Compare) and len(atom.ops) == 1 and label in ("T", "F")):
@@ -396,58 +577,44 @@ class LoopSym:
     # -- one path ----------------------------------------------------------
     def run(self, path: Path, cfg: CFG) -> PathResult:
         res0 = Lin.atom("residual@start")
-        st: dict[str, t.Any] = {"env": {}, "facts": [res0], "res": res0}
+        st: dict[str, t.Any] = {"env": dict(self.pre_env), "facts": [res0] + list(self.pre_facts), "res": res0}
         r = PathResult()
         r.res_start = res0
         r.res_base = res0
-        counter0 = Lin.atom(self.counter)
+        counter0 = self.pos(st)
         last = path[-1][0]
         r.end = "exit" if last is cfg.exit else "raise" if last is cfg.raise_exit else "head"
         for node, label in path[:-1]:
             a = node.ast
             if a is None or node.kind in ("join",):
                 continue
+            self._bind_walrus(a, st, r)
             if node.kind == "test":
-                self._note_reads(a, st, r, consumed=True)
+                self._note_reads(a, st, r)
                 self._cmp_facts(a, label, st)
                 continue
             if isinstance(a, (ast.Assign, ast.AnnAssign)):
-                value = a.value
-                targets = a.targets if isinstance(a, ast.Assign) else [a.target]
-                if value is None:
+                if a.value is None:
                     continue
+                targets = a.targets if isinstance(a, ast.Assign) else [a.target]
+                # python's order: the right-hand side first, then the targets left to right
                 for tg in targets:
-                    if isinstance(tg, ast.Name):
-                        if self.under_call(value, "read") and len(value.args) == 1:  # type: ignore[attr-defined]
-                            k = self._lin_or_fresh(value.args[0], st)  # type: ignore[attr-defined]
-                            o = Opaque(k, norm(value))
-                            st["env"][tg.id] = o
-                            st["facts"].append(Lin.atom(f"len({o.id})"))  # len >= 0
-                            st["facts"].append(k - Lin.atom(f"len({o.id})"))  # contract of read(k): at most k bytes
-                            self._read_event(k, value, st, r)
-                        else:
-                            self._note_reads(value, st, r, consumed=True)
-                            try:
-                                st["env"][tg.id] = self.lin(value, st)
-                            except NotArith:
-                                st["env"][tg.id] = Opaque(None, norm(value))
-                    elif self.is_res(tg):
-                        if self.is_header_read(value):
-                            st["res"] = self._fresh("chunk-size")
-                            st["facts"].append(st["res"])  # the header reader returns >= 0 (checked separately)
-                        else:
-                            r.other_res_writes.append(a)
-                            st["res"] = self._lin_or_fresh(value, st)
-                        r.res_base = st["res"]
-                        r.copied_since_base = Lin()
-                        r.requested_since_base = Lin()
-                    elif isinstance(tg, ast.Subscript) and isinstance(tg.value, ast.Name) and tg.value.id == self.buf:
-                        self._store(a, tg, value, st, r, counter0)
+                    if isinstance(tg, (ast.Tuple, ast.List)) and isinstance(a.value, (ast.Tuple, ast.List)) and len(tg.elts) == len(a.value.elts) and not any(isinstance(x, ast.Starred) for x in list(tg.elts) + list(a.value.elts)):
+                        vals = [(v, self._eval(v, st, r)) for v in a.value.elts]
+                        for sub, (vast, val) in zip(tg.elts, vals):
+                            self._assign(a, sub, vast, val, st, r, counter0)
+                    elif isinstance(tg, (ast.Tuple, ast.List)):
+                        self._note_reads(a.value, st, r)
+                        for sub in ast.walk(tg):
+                            if isinstance(sub, ast.Name) and isinstance(sub.ctx, ast.Store):
+                                st["env"][sub.id] = Opaque(None, norm(a.value))
+                            elif self.is_res(sub) or (isinstance(sub, ast.Subscript) and isinstance(sub.value, ast.Name) and sub.value.id in self.bufs):
+                                raise AnalysisError(f"readinto: `{norm(a)}` unpacks into the chunk state / the buffer (not modelled)")
                     else:
-                        self._note_reads(value, st, r, consumed=True)
+                        self._assign(a, tg, a.value, self._eval(a.value, st, r), st, r, counter0)
             elif isinstance(a, ast.AugAssign):
                 tg = a.target
-                self._note_reads(a.value, st, r, consumed=True)
+                self._note_reads(a.value, st, r)
                 d = self._lin_or_fresh(a.value, st)
                 if isinstance(tg, ast.Name):
                     cur = st["env"].get(tg.id)
@@ -467,12 +634,87 @@ class LoopSym:
                         st["res"] = st["res"] + d
                     else:
                         st["res"] = self._fresh("opaque")
+                elif isinstance(tg, ast.Subscript) and isinstance(tg.value, ast.Name) and tg.value.id in self.bufs:
+                    raise AnalysisError(f"readinto: buffer updated in place by `{norm(a)}` (not a plain slice store)")
             else:
-                self._note_reads(a, st, r, consumed=True)
+                self._note_reads(a, st, r)
         r.res_end = st["res"]
-        cur = st["env"].get(self.counter)
-        r.read_delta = (cur if isinstance(cur, Lin) else (counter0 if cur is None else self._fresh("opaque"))) - counter0
+        r.read_delta = self.pos(st) - counter0
         return r
+
+    def pos(self, st: dict[str, t.Any]) -> Lin:
+        """value of the returned count in a state (a local that holds bytes makes it opaque)."""
+        return self._lin_or_fresh(self.counter_expr, st)
+
+    def pos0(self) -> Lin:
+        """the returned count on arrival at the loop head, over the locals' values there."""
+        return self.pos({"env": dict(self.pre_env), "facts": [], "res": Lin.atom("residual@start")})
+
+    def pos_entry(self) -> Lin:
+        """the returned count when the loop is entered for the first time."""
+        return self.pos({"env": {**self.pre_env, **self.entry_env}, "facts": [], "res": Lin.atom("residual@start")})
+
+    @staticmethod
+    def _known(v: Lin) -> bool:
+        return not any(a.startswith("opaque#") for a in v.t)
+
+    def _eval(self, value: ast.AST, st: dict[str, t.Any], r: PathResult) -> t.Any:
+        """value of a right-hand side: Lin (arithmetic), Opaque (bytes; .requested set when they are the result of
+        read(k) on the underlying stream), or the marker "HEADER" (the chunk-size reader's result)."""
+        if isinstance(value, ast.NamedExpr):
+            return st["env"].get(value.target.id, Opaque(None, norm(value))) if isinstance(value.target, ast.Name) else Opaque(None, norm(value))
+        if self.under_call(value, "read") and len(value.args) == 1 and not value.keywords:  # type: ignore[attr-defined]
+            self._note_reads(value.args[0], st, r)  # type: ignore[attr-defined]
+            k = self._lin_or_fresh(value.args[0], st)  # type: ignore[attr-defined]
+            o = Opaque(k, norm(value))
+            o.res_at = st["res"]
+            st["facts"].append(Lin.atom(f"len({o.id})"))  # len >= 0
+            st["facts"].append(k - Lin.atom(f"len({o.id})"))  # contract of read(k): at most k bytes
+            self._read_event(k, value, st, r)
+            return o
+        if self.is_header_read(value):
+            return "HEADER"
+        if isinstance(value, ast.Name) and isinstance(st["env"].get(value.id), Opaque):
+            return st["env"][value.id]
+        if isinstance(value, ast.Call) and dotted(value.func) in ("bytes", "memoryview", "bytearray") and len(value.args) == 1 and not value.keywords:
+            inner = self._eval(value.args[0], st, r)  # a copy / view of bytes: same content, same length
+            if isinstance(inner, Opaque):
+                return inner
+            return Opaque(None, norm(value))
+        self._note_reads(value, st, r)
+        try:
+            return self.lin(value, st)
+        except NotArith:
+            return Opaque(None, norm(value))
+
+    def _assign(self, stmt: ast.AST, tg: ast.AST, vast: ast.AST, val: t.Any, st: dict[str, t.Any], r: PathResult, counter0: Lin) -> None:
+        if isinstance(tg, ast.Name):
+            if val == "HEADER":
+                raise AnalysisError(f"readinto: the chunk size read is kept in a local by `{norm(stmt)}` (the header / terminator protocol is followed on the residual attribute only)")
+            st["env"][tg.id] = val
+        elif self.is_res(tg):
+            if val == "HEADER":
+                st["res"] = self._fresh("chunk-size")
+                st["facts"].append(st["res"])  # the header reader returns >= 0 (checked separately)
+                r.res_base = st["res"]
+                r.copied_since_base = Lin()
+                r.requested_since_base = Lin()
+            elif isinstance(val, Lin) and self._known(val):
+                st["res"] = val  # arithmetic update (`self._len = self._len - n`, `self._len = remaining`)
+            else:
+                r.other_res_writes.append(stmt)
+                st["res"] = self._fresh("opaque")
+                r.res_base = st["res"]
+                r.copied_since_base = Lin()
+                r.requested_since_base = Lin()
+        elif isinstance(tg, ast.Subscript) and isinstance(tg.value, ast.Name) and tg.value.id in self.bufs:
+            self._store(stmt, tg, vast, val, st, r, counter0)
+        elif isinstance(tg, (ast.Tuple, ast.List, ast.Starred)):
+            for sub in ast.walk(tg):
+                if isinstance(sub, ast.Name) and isinstance(sub.ctx, ast.Store):
+                    st["env"][sub.id] = Opaque(None, norm(vast))
+                elif self.is_res(sub) or (isinstance(sub, ast.Subscript) and isinstance(sub.value, ast.Name) and sub.value.id in self.bufs):
+                    raise AnalysisError(f"readinto: `{norm(stmt)}` unpacks into the chunk state / the buffer (not modelled)")
 
     def _lin_or_fresh(self, e: ast.AST, st: dict[str, t.Any]) -> Lin:
         try:
@@ -483,18 +725,29 @@ class LoopSym:
     def _read_event(self, k: Lin, call: ast.AST, st: dict[str, t.Any], r: PathResult) -> None:
         r.reads.append((k, call, st["res"], tuple(st["facts"])))
         r.requested_since_base = r.requested_since_base + k
+        st.setdefault("seen_reads", set()).add(id(call))
 
-    def _note_reads(self, e: ast.AST, st: dict[str, t.Any], r: PathResult, consumed: bool) -> None:
+    def _note_reads(self, e: ast.AST, st: dict[str, t.Any], r: PathResult, consumed: bool = True) -> None:
         """underlying read(k) calls that are evaluated without their result being stored into the buffer or a local."""
+        seen = st.setdefault("seen_reads", set())
         for c in ast.walk(e):
-            if self.under_call(c, "read"):
+            if self.under_call(c, "read") and id(c) not in seen:
                 k = self._lin_or_fresh(c.args[0], st) if len(c.args) == 1 else self._fresh("opaque")  # type: ignore[attr-defined]
                 self._read_event(k, c, st, r)
 
-    def _store(self, stmt: ast.AST, tg: ast.Subscript, value: ast.AST, st: dict[str, t.Any], r: PathResult, counter0: Lin) -> None:
+    def _bind_walrus(self, a: ast.AST, st: dict[str, t.Any], r: PathResult) -> None:
+        """`(name := value)` inside the node about to be evaluated: bound first (inner before outer)."""
+        named = [x for x in ast.walk(a) if isinstance(x, ast.NamedExpr)]
+        for x in reversed(named):
+            if isinstance(x.target, ast.Name):
+                val = self._eval(x.value, st, r)
+                if val == "HEADER":
+                    raise AnalysisError(f"readinto: the chunk size read is kept in a local by `{norm(x)}`")
+                st["env"][x.target.id] = val
+
+    def _store(self, stmt: ast.AST, tg: ast.Subscript, vast: ast.AST, val: t.Any, st: dict[str, t.Any], r: PathResult, counter0: Lin) -> None:
         sl = tg.slice
-        cur = st["env"].get(self.counter)
-        read_at = cur if isinstance(cur, Lin) else counter0
+        read_at = self.pos(st)
         lb = Lin.atom(f"len({self.buf})")
         if not isinstance(sl, ast.Slice) or sl.step is not None:
             # single index store or strided store: not a bulk copy this analysis understands
@@ -503,18 +756,15 @@ class LoopSym:
         hi = self._lin_or_fresh(sl.upper, st) if sl.upper is not None else lb
         requested = None
         src_len = None
-        direct = False
+        direct = self.under_call(vast, "read")
         res_at = st["res"]
-        if self.under_call(value, "read") and len(value.args) == 1:  # type: ignore[attr-defined]
-            requested = self._lin_or_fresh(value.args[0], st)  # type: ignore[attr-defined]
-            direct = True
-            self._read_event(requested, value, st, r)
-        elif isinstance(value, ast.Name) and isinstance(st["env"].get(value.id), Opaque):
-            o = st["env"][value.id]
-            requested = o.requested
-            src_len = Lin.atom(f"len({o.id})")
-        else:
-            self._note_reads(value, st, r, consumed=True)
+        if isinstance(val, Opaque) and val.requested is not None:
+            requested = val.requested
+            res_at = val.res_at if val.res_at is not None else res_at
+            if not direct:
+                src_len = Lin.atom(f"len({val.id})")
+        elif not isinstance(vast, ast.Constant):
+            raise AnalysisError(f"readinto: the source of the buffer store `{norm(stmt)}` is not a value this analysis follows (expected the bytes returned by one read of the underlying stream)")
         w = hi - lo
         r.stores.append(StoreRec(stmt, lo, hi, w, requested, src_len, direct, read_at, res_at, tuple(st["facts"])))
         r.copied_since_base = r.copied_since_base + w
@@ -554,8 +804,21 @@ def wire_val(e: ast.AST, env: dict[str, list]) -> list:
         return _q(e)
     if isinstance(e, ast.Name):
         return list(env[e.id]) if e.id in env else _q(e)
+    if isinstance(e, (ast.List, ast.Tuple)):
+        # a sequence of byte strings: only ever joined with b"" / handed to writelines, so its concatenation is its value
+        out_: list = []
+        for x in e.elts:
+            if isinstance(x, ast.Starred):
+                return _q(e)
+            out_ += unseq(wire_val(x, env))
+        return [("SEQ", tuple(merge(out_)))]
     if isinstance(e, ast.BinOp) and isinstance(e.op, ast.Add):
-        return merge(wire_val(e.left, env) + wire_val(e.right, env))
+        a, b = wire_val(e.left, env), wire_val(e.right, env)
+        if is_seq(a) != is_seq(b):
+            return _q(e)
+        if is_seq(a):
+            return [("SEQ", tuple(merge(unseq(a) + unseq(b))))]
+        return merge(a + b)
     if isinstance(e, ast.BinOp) and isinstance(e.op, ast.Mod) and isinstance(e.left, ast.Constant) and isinstance(e.left.value, (bytes, str)):
         fmt = e.left.value if isinstance(e.left.value, bytes) else e.left.value.encode("latin1", "replace")
         args = list(e.right.elts) if isinstance(e.right, ast.Tuple) else [e.right]
@@ -626,11 +889,9 @@ def wire_val(e: ast.AST, env: dict[str, list]) -> list:
         d = dotted(f)
         if isinstance(f, ast.Attribute) and f.attr in ("encode",) and all(isinstance(a, ast.Constant) for a in e.args):
             return wire_val(f.value, env)
-        if isinstance(f, ast.Attribute) and f.attr == "join" and isinstance(f.value, ast.Constant) and f.value.value in (b"", "") and len(e.args) == 1 and isinstance(e.args[0], (ast.List, ast.Tuple)):
-            out = []
-            for x in e.args[0].elts:
-                out += wire_val(x, env)
-            return merge(out)
+        if isinstance(f, ast.Attribute) and f.attr == "join" and isinstance(f.value, ast.Constant) and f.value.value in (b"", "") and len(e.args) == 1 and not e.keywords:
+            seq = wire_val(e.args[0], env)
+            return unseq(seq) if is_seq(seq) else _q(e)
         if d == "format" and len(e.args) == 2 and isinstance(e.args[1], ast.Constant) and _is_len_of_data(e.args[0], env):
             if e.args[1].value in ("x", "X"):
                 return [SIZE]
@@ -644,6 +905,15 @@ def wire_val(e: ast.AST, env: dict[str, list]) -> list:
             return wire_val(e.args[0], env)
         return _q(e)
     return _q(e)
+
+
+def is_seq(tokens: list) -> bool:
+    return len(tokens) == 1 and tokens[0][0] == "SEQ"
+
+
+def unseq(tokens: list) -> list:
+    """the concatenation of a sequence value (or the value itself)."""
+    return list(tokens[0][1]) if is_seq(tokens) else tokens
 
 
 def merge(tokens: list) -> list:
@@ -668,12 +938,15 @@ def fmt_tokens(tokens: list) -> str:
             parts.append(repr(tk[1]))
         elif tk[0] == "?":
             parts.append(f"?{tk[1]}")
+        elif tk[0] == "SEQ":
+            parts.append("[" + fmt_tokens(list(tk[1])) + "]")
         else:
             parts.append({"DATA": "<data>", "SIZE": "<hex len(data)>", "DEC": "<decimal len(data)>", "PFX": "<0x-prefixed hex len(data)>"}[tk[0]])
     return " ".join(parts)
 
 
 def always_truthy(tokens: list) -> bool:
+    tokens = unseq(tokens)
     return any(tk[0] in ("SIZE", "DEC", "PFX") or (tk[0] == "B" and tk[1]) for tk in tokens)
 
 
@@ -785,11 +1058,48 @@ def hval(e: ast.AST, env: dict[str, t.Any], environ: str, cond: t.Callable[[ast.
         if c is None:
             return _q(e)
         return hval(e.body if c else e.orelse, env, environ, cond)
+    if isinstance(e, ast.Subscript):
+        base = hval(e.value, env, environ, cond)
+        if isinstance(base, str):
+            def ix(x: ast.AST | None) -> t.Any:
+                if x is None:
+                    return None
+                if isinstance(x, ast.Constant) and isinstance(x.value, int):
+                    return x.value
+                if isinstance(x, ast.UnaryOp) and isinstance(x.op, ast.USub) and isinstance(x.operand, ast.Constant) and isinstance(x.operand.value, int):
+                    return -x.operand.value
+                if isinstance(x, ast.Call) and dotted(x.func) == "len" and len(x.args) == 1 and isinstance(x.args[0], ast.Constant) and isinstance(x.args[0].value, str):
+                    return len(x.args[0].value)
+                raise Unknown(norm(x))
+
+            try:
+                if isinstance(e.slice, ast.Slice):
+                    return base[ix(e.slice.lower) : ix(e.slice.upper) : ix(e.slice.step)]
+                return base[ix(e.slice)]
+            except (Unknown, IndexError, ValueError):
+                return _q(e)
+    if isinstance(e, ast.Call) and not e.keywords and not any(isinstance(a, ast.Starred) for a in e.args):
+        # a private helper of the module / a method of the handler, made of assignments, `if` and `return`: evaluated on the arguments
+        helpers = env.get("__helpers__") or {}
+        key = e.func.id if isinstance(e.func, ast.Name) else (f"self.{e.func.attr}" if isinstance(e.func, ast.Attribute) and is_self_attr(e.func) else None)
+        fn = helpers.get(key) if key else None
+        if fn is not None:
+            r = hcall(fn, [hval(a, env, environ, cond) for a in e.args], key.startswith("self."), environ, env.get("__present__", ()), helpers, env.get("__depth__", 0))
+            if r is not None:
+                return r
     if isinstance(e, ast.Call) and isinstance(e.func, ast.Attribute):
         f = e.func
         if isinstance(f.value, ast.Name) and f.value.id == environ and f.attr == "get" and not e.keywords and (len(e.args) == 1 or (len(e.args) == 2 and isinstance(e.args[1], ast.Constant) and e.args[1].value is None)):
             k = hval(e.args[0], env, environ, cond)
             return [("ENV", k)] if isinstance(k, str) else _q(e)
+        if (
+            f.attr == "join" and isinstance(f.value, ast.Constant) and isinstance(f.value.value, str) and len(e.args) == 1 and not e.keywords
+            and isinstance(e.args[0], ast.Call) and isinstance(e.args[0].func, ast.Attribute) and e.args[0].func.attr == "split"
+            and len(e.args[0].args) == 1 and not e.args[0].keywords and isinstance(e.args[0].args[0], ast.Constant) and isinstance(e.args[0].args[0].value, str) and e.args[0].args[0].value
+        ):
+            # sep.join(x.split(s)) is x.replace(s, sep)
+            rep = ast.Call(func=ast.Attribute(value=e.args[0].func.value, attr="replace", ctx=ast.Load()), args=[e.args[0].args[0], f.value], keywords=[])
+            return hval(ast.copy_location(rep, e), env, environ, cond)
         if f.attr == "join" and isinstance(f.value, ast.Constant) and isinstance(f.value.value, str) and len(e.args) == 1 and isinstance(e.args[0], (ast.List, ast.Tuple)) and not e.keywords:
             parts = []
             for i, x in enumerate(e.args[0].elts):
@@ -809,7 +1119,68 @@ def hval(e: ast.AST, env: dict[str, t.Any], environ: str, cond: t.Callable[[ast.
         return _q(e)
     if isinstance(e, ast.Call) and dotted(e.func) == "str" and len(e.args) == 1 and not e.keywords:
         return hval(e.args[0], env, environ, cond)
+    if isinstance(e, ast.Constant) and isinstance(e.value, bool):
+        return e.value
+    if isinstance(e, (ast.Compare, ast.BoolOp)) or (isinstance(e, ast.UnaryOp) and isinstance(e.op, ast.Not)):
+        c = cond(e)
+        if c is not None:
+            return c
     return _q(e)
+
+
+def hcall(fn: ast.AST, args: list, is_method: bool, environ: str, present: t.Collection[str], helpers: dict, depth: int = 0) -> t.Any:
+    """result of a helper function on evaluated arguments (str / token list / bool), or None when its body leaves the
+    subset: assignments to locals, `if` with a decidable condition, `return <expr>`, no loops, no other statements."""
+    if depth > 2 or not isinstance(fn, ast.FunctionDef) or fn.decorator_list and not all(dotted(d) in ("staticmethod",) for d in fn.decorator_list):
+        return None
+    a = fn.args
+    if a.vararg or a.kwarg or a.kwonlyargs or a.defaults or a.posonlyargs:
+        return None
+    params = [x.arg for x in a.args]
+    if is_method and not any(dotted(d) == "staticmethod" for d in fn.decorator_list):
+        params = params[1:]
+    if len(params) != len(args):
+        return None
+    vals: dict[str, t.Any] = dict(zip(params, args))
+    vals["__helpers__"], vals["__present__"], vals["__depth__"] = helpers, present, depth + 1
+    cond = lambda x: hcond(x, vals, environ, present)  # noqa: E731
+
+    class Leave(Exception):
+        pass
+
+    def block(stmts: list[ast.stmt]) -> tuple[t.Any] | None:
+        for st in stmts:
+            if isinstance(st, ast.Pass) or (isinstance(st, ast.Expr) and isinstance(st.value, ast.Constant)):
+                continue
+            if isinstance(st, (ast.Assign, ast.AnnAssign)) and st.value is not None:
+                tgs = st.targets if isinstance(st, ast.Assign) else [st.target]
+                if not all(isinstance(tg, ast.Name) for tg in tgs):
+                    raise Leave()
+                v = hval(st.value, vals, environ, cond)
+                for tg in tgs:
+                    vals[tg.id] = v  # type: ignore[attr-defined]
+            elif isinstance(st, ast.AugAssign) and isinstance(st.target, ast.Name) and isinstance(st.op, ast.Add):
+                vals[st.target.id] = _htoks([vals.get(st.target.id, _q(st.target)), hval(st.value, vals, environ, cond)])
+            elif isinstance(st, ast.If):
+                c = cond(st.test)
+                if c is None:
+                    raise Leave()
+                r = block(st.body if c else st.orelse)
+                if r is not None:
+                    return r
+            elif isinstance(st, ast.Return):
+                if st.value is None:
+                    raise Leave()
+                return (hval(st.value, vals, environ, cond),)
+            else:
+                raise Leave()
+        return None
+
+    try:
+        r = block(list(fn.body))
+    except Leave:
+        return None
+    return r[0] if r is not None else None
 
 
 def hcond(e: ast.AST, env: dict[str, t.Any], environ: str, present: t.Collection[str]) -> bool | None:
@@ -831,6 +1202,13 @@ def hcond(e: ast.AST, env: dict[str, t.Any], environ: str, present: t.Collection
             if not isinstance(k, str):
                 return None
             return (k in present) == isinstance(op, ast.In)
+        other = env.get("__other_dicts__") or {}
+        if isinstance(op, (ast.In, ast.NotIn)) and isinstance(b, ast.Name) and b.id in other:
+            # another dict whose keys are known (the environ while the headers are collected in a dict of their own)
+            k = hval(a, env, environ, rec)
+            if not isinstance(k, str):
+                return None
+            return (k in other[b.id]) == isinstance(op, ast.In)
         if isinstance(op, (ast.Is, ast.IsNot)) and isinstance(b, ast.Constant) and b.value is None:
             v = hval(a, env, environ, rec)
             if isinstance(v, list) and len(v) == 1 and v[0][0] == "ENV":
@@ -842,13 +1220,13 @@ def hcond(e: ast.AST, env: dict[str, t.Any], environ: str, present: t.Collection
         v = hval(e, env, environ, rec)
         if isinstance(v, list) and len(v) == 1 and v[0][0] == "ENV":
             return None if v[0][1] in present else False  # an earlier value may be empty; an absent one is None
-        if isinstance(v, str):
+        if isinstance(v, (str, bool)):
             return bool(v)
 
     def bind(x: ast.AST) -> tuple[bool, t.Any]:
         if isinstance(x, (ast.Name, ast.Call, ast.JoinedStr, ast.BinOp, ast.Subscript)):
             v = hval(x, env, environ, rec)
-            if isinstance(v, str):
+            if isinstance(v, (str, bool, tuple, frozenset)):
                 return True, v
         return False, None
 
@@ -925,7 +1303,7 @@ def _self_method_call(c: ast.AST) -> str | None:
     return None
 
 
-def inline_methods(fn: ast.AST, methods: dict[str, ast.AST], exclude: t.Collection[str] = ()) -> tuple[ast.AST, set[str]]:
+def inline_methods(fn: ast.AST, methods: dict[str, ast.AST], exclude: t.Collection[str] = (), nested: bool = False) -> tuple[ast.AST, set[str]]:
     inlined: set[str] = set()
     new_fn = clone(fn)
 
@@ -995,7 +1373,7 @@ def inline_methods(fn: ast.AST, methods: dict[str, ast.AST], exclude: t.Collecti
                     out += rep  # one level: the inlined body is not scanned again
                     continue
             for f in ("body", "orelse", "finalbody"):
-                if isinstance(getattr(st, f, None), list) and not isinstance(st, (ast.FunctionDef, ast.AsyncFunctionDef, ast.ClassDef)):
+                if isinstance(getattr(st, f, None), list) and (not isinstance(st, (ast.FunctionDef, ast.AsyncFunctionDef, ast.ClassDef)) or (nested and isinstance(st, ast.FunctionDef))):
                     setattr(st, f, block(getattr(st, f)))
             for h in getattr(st, "handlers", []) or []:
                 h.body = block(h.body)
@@ -1008,6 +1386,95 @@ def inline_methods(fn: ast.AST, methods: dict[str, ast.AST], exclude: t.Collecti
         for ch in ast.iter_child_nodes(n):
             ch._parent = n  # type: ignore[attr-defined]
     return new_fn, inlined
+
+
+def fold_pending_header(fn: ast.AST, lenreader: str) -> tuple[ast.AST, str | None]:
+    """the chunk size kept in a local before it is stored:
+
+        size = self.<reader>()              self.<attr> = self.<reader>()
+        if size == 0: ...           ->      if self.<attr> == 0: ...
+        self.<attr> = size                  pass
+
+    Done only when the two are the same for every rule that follows: the local is bound by that statement only, stored
+    into one attribute by one statement which every path from the read to the normal exit / the next read passes,
+    nothing in between mentions the attribute or calls a method of the object, and the local is not read after the
+    store.  Returns (function - a rewritten copy, or the original -, the attribute name or None)."""
+    from ..cfg import CFG
+
+    new_fn = clone(fn)
+    for n in ast.walk(new_fn):
+        for ch in ast.iter_child_nodes(n):
+            ch._parent = n  # type: ignore[attr-defined]
+
+    def is_reader(v: ast.AST | None) -> bool:
+        return isinstance(v, ast.Call) and isinstance(v.func, ast.Attribute) and is_self_attr(v.func, lenreader) and not v.args and not v.keywords
+
+    stores: dict[str, int] = {}
+    for n in ast.walk(new_fn):
+        if isinstance(n, ast.Name) and isinstance(n.ctx, (ast.Store, ast.Del)):
+            stores[n.id] = stores.get(n.id, 0) + 1
+    cands = []
+    for n in ast.walk(new_fn):
+        tg = n.targets[0] if isinstance(n, ast.Assign) and len(n.targets) == 1 else n.target if isinstance(n, ast.AnnAssign) else None
+        if isinstance(tg, ast.Name) and is_reader(getattr(n, "value", None)) and stores.get(tg.id) == 1:
+            cands.append((n, tg.id))
+    if len(cands) != 1:
+        return fn, None
+    dstmt, x = cands[0]
+    commits = [n for n in ast.walk(new_fn) if isinstance(n, ast.Assign) and len(n.targets) == 1 and is_self_attr(n.targets[0]) and isinstance(n.value, ast.Name) and n.value.id == x]
+    if len(commits) != 1:
+        return fn, None
+    cstmt = commits[0]
+    attr = cstmt.targets[0].attr  # type: ignore[attr-defined]
+    cfg = CFG(new_fn)
+    D, C = cfg.node_of(dstmt), cfg.node_of(cstmt)
+    if D is None or C is None or D is C or not cfg.node_dominates(D, C):
+        return fn, None
+    starts = [s_ for s_, l in D.succs if l != "exc"]
+    if not all(cfg.all_paths_pass(s_, [cfg.exit, D], [C]) for s_ in starts):
+        return fn, None
+    region = set()
+    for s_ in starts:
+        region |= cfg.reach(s_, avoid_nodes=[C])
+    region.discard(C.id)
+    region.discard(D.id)
+    for n in cfg.nodes:
+        if n.id in region and n.ast is not None and n.kind in ("stmt", "test"):
+            for y in ast.walk(n.ast):
+                if is_self_attr(y, attr) or (isinstance(y, ast.Call) and isinstance(y.func, ast.Attribute) and is_self_attr(y.func)):
+                    return fn, None
+    loads = [n for n in ast.walk(new_fn) if isinstance(n, ast.Name) and n.id == x and isinstance(n.ctx, ast.Load)]
+    for n in loads:
+        nd = cfg.node_of(n)
+        if nd is None or not (nd is C or nd.id in region):
+            return fn, None
+    # rewrite
+    def self_attr(ctx: ast.expr_context, like: ast.AST) -> ast.Attribute:
+        return ast.copy_location(ast.Attribute(value=ast.copy_location(ast.Name(id="self", ctx=ast.Load()), like), attr=attr, ctx=ctx), like)
+
+    class T(ast.NodeTransformer):
+        def visit_Name(self, n: ast.Name) -> ast.AST:  # noqa: N802
+            if n.id == x and isinstance(n.ctx, ast.Load):
+                return self_attr(ast.Load(), n)
+            return n
+
+        def visit_Assign(self, n: ast.Assign) -> ast.AST:  # noqa: N802
+            if n is cstmt:
+                return ast.copy_location(ast.Pass(), n)
+            if n is dstmt:
+                return ast.copy_location(ast.Assign(targets=[self_attr(ast.Store(), n)], value=n.value), n)
+            return self.generic_visit(n)
+
+        def visit_AnnAssign(self, n: ast.AnnAssign) -> ast.AST:  # noqa: N802
+            if n is dstmt:
+                return ast.copy_location(ast.Assign(targets=[self_attr(ast.Store(), n)], value=n.value), n)
+            return self.generic_visit(n)
+
+    new_fn = ast.fix_missing_locations(T().visit(new_fn))
+    for n in ast.walk(new_fn):
+        for ch in ast.iter_child_nodes(n):
+            ch._parent = n  # type: ignore[attr-defined]
+    return new_fn, attr
 
 
 # ---------------------------------------------------------------------
